@@ -161,6 +161,16 @@ Definition good (c : chunk) : Prop :=
   | Code _ _ => True
   end.
 
+(* a complete run: empty, or up to a significant token, or up to the end of the list *)
+Definition good_end (c : chunk) : Prop :=
+  match c with
+  | Trivia s _ _ run => run = [] \/ sigb (s + zlen run) = true \/ s + zlen run = len
+  | Code _ _ => True
+  end.
+
+Lemma good_good_end c : good c -> good_end c.
+Proof. destruct c as [s ind e run|i text]; cbn; [intros [H|H]; [left; exact H | right; left; exact H] | auto]. Qed.
+
 Lemma codes_of_app a b : codes_of (a ++ b) = codes_of a ++ codes_of b.
 Proof. unfold codes_of. apply flat_map_app. Qed.
 
